@@ -10,15 +10,12 @@ import (
 	"strings"
 	"time"
 
-	"github.com/RoaringBitmap/roaring"
 	segment "github.com/blugelabs/bluge_segment_api"
-	ice "github.com/blugelabs/ice/v2"
 	"github.com/blugelabs/ice/v2/verifrt"
 
 	"verifharness/explore"
 	"verifharness/gen"
 	"verifharness/model"
-	"verifharness/obs"
 )
 
 func init() {
@@ -33,128 +30,6 @@ func init() {
 }
 
 var rtCfg = &verifrt.Config{AlwaysShared: map[string]bool{"*ice.Segment": true, "*ice.footer": true}, HotSites: map[string]bool{}, Written: map[string]bool{}, Promoted: map[string]bool{}}
-
-type c09Op struct {
-	name string
-	run  func(seg segment.Segment) string
-}
-
-func c09Batch() []model.Doc {
-	batch := make([]model.Doc, 130)
-	for i := range batch {
-		d := model.Doc{gen.IDField("r", i), {N: "a", Len: 2, St: true, Val: []byte(fmt.Sprintf("stored-%03d", i)),
-			Terms: []model.Term{{T: "x", Freq: 1 + i%3, Locs: []model.Loc{{P: i, S: 1, E: 2}}}, {T: fmt.Sprintf("u%d", i%40), Freq: 1}}}}
-		if i%2 == 0 {
-			d = append(d, model.Field{N: "b", Len: 1, DV: true, Terms: []model.Term{{T: fmt.Sprintf("t%d", i%7), Freq: 1}}})
-		}
-		batch[i] = d
-	}
-	return batch
-}
-
-func guardStr(f func() string) (s string) {
-	if msg := explore.Guard(func() { s = f() }); msg != "" {
-		return msg
-	}
-	return s
-}
-
-func c09Menu(other segment.Segment) []c09Op {
-	stored := func(n uint64) c09Op {
-		return c09Op{fmt.Sprintf("stored(%d)", n), func(seg segment.Segment) string {
-			var b strings.Builder
-			err := seg.VisitStoredFields(n, func(f string, v []byte) bool {
-				fmt.Fprintf(&b, "%s=%s;", f, v)
-				return true
-			})
-			if err != nil {
-				b.WriteString("ERR " + err.Error())
-			}
-			return b.String()
-		}}
-	}
-	dict := func(field string) c09Op {
-		return c09Op{"dict(" + field + ")", func(seg segment.Segment) string {
-			d, err := seg.Dictionary(field)
-			if err != nil {
-				return "ERR " + err.Error()
-			}
-			var b strings.Builder
-			it := d.Iterator(nil, nil, nil)
-			for {
-				e, err := it.Next()
-				if err != nil {
-					return "ERR " + err.Error()
-				}
-				if e == nil {
-					break
-				}
-				fmt.Fprintf(&b, "%q:%d;", e.Term(), e.Count())
-			}
-			return b.String()
-		}}
-	}
-	dv := func(n uint64) c09Op {
-		return c09Op{fmt.Sprintf("docvalues(%d)", n), func(seg segment.Segment) string {
-			r, err := seg.DocumentValueReader([]string{"b"})
-			if err != nil {
-				return "ERR " + err.Error()
-			}
-			var b strings.Builder
-			for _, d := range []uint64{n, n + 2, n} {
-				err = r.VisitDocumentValues(d, func(f string, t []byte) { fmt.Fprintf(&b, "%d:%s=%s;", d, f, t) })
-				if err != nil {
-					return "ERR " + err.Error()
-				}
-			}
-			return b.String()
-		}}
-	}
-	return []c09Op{
-		stored(0), stored(129), stored(1), dict("a"), dict("b"),
-		{"postings(a,x)", func(seg segment.Segment) string {
-			d, err := seg.Dictionary("a")
-			if err != nil {
-				return "ERR " + err.Error()
-			}
-			pl, err := d.PostingsList([]byte("x"), nil, nil)
-			if err != nil {
-				return "ERR " + err.Error()
-			}
-			ps, err := obs.WalkAll(pl)
-			if err != nil {
-				return "ERR " + err.Error()
-			}
-			return fmt.Sprint(len(ps), ps[0], ps[len(ps)-1])
-		}},
-		dv(0), dv(126),
-		{"docsMatching", func(seg segment.Segment) string {
-			bm, err := seg.DocsMatchingTerms([]segment.Term{pairT{"a", "u3"}, pairT{"_id", "r7"}, pairT{"b", "t1"}})
-			if err != nil {
-				return "ERR " + err.Error()
-			}
-			return bm.String()
-		}},
-		stored(135), // out of range: a legal no-op read that still takes a per-call context from the pool
-		{"writeTo", func(seg segment.Segment) string {
-			var w sliceWriter
-			n, err := seg.WriteTo(&w, nil)
-			if err != nil {
-				return "ERR " + err.Error()
-			}
-			return fmt.Sprintf("%d:%016x", n, explore.Hash(string(w.b)))
-		}},
-		{"merge([S,S'])", func(seg segment.Segment) string {
-			var w sliceWriter
-			m := ice.Merge([]segment.Segment{seg, other}, []*roaring.Bitmap{bitmapOf(3, 128), nil}, 1<<16)
-			n, err := m.WriteTo(&w, nil)
-			if err != nil {
-				return "ERR " + err.Error()
-			}
-			return fmt.Sprintf("%d:%016x:%v", n, explore.Hash(string(w.b)), m.DocumentNumbers()[1])
-		}},
-	}
-}
 
 type c09Scenario struct {
 	name    string
